@@ -57,6 +57,7 @@ def run(ctx):
                               ("c14_lookup_mismatches", "failing password backend (always / now and then / on the first lookup): status and number of lookups of every attempt = login_step_tries code_tries on the attempt's answer stream", "CasesC14_lookup.idx"),
                               ("c14_okta_mismatches", "Okta as password backend (real lib/authenticators/okta against a local authn endpoint answering 200 SUCCESS / MFA_REQUIRED / other / undecodable, 401, 403, 429, 5xx): status and number of requests to the endpoint per attempt = login_step_tries code_tries over okta_answer", "CasesC14_okta.idx"),
                               ("c14_handler_mismatches", "measured handler sequence: every window obeys the theorem's inequality; fresh burst and refill after a pause are let through"),
+                              ("c14_totp_src_mismatches", "the same steps with the read source (any attempt may be served from the cache database: remoteDBQueryTimeout = 0 around the call, cache refreshed) and the replay guard: accepted, entry after, remembered and persisted step of the last success = attempt_src on the observed pre-state (a cached attempt writes nothing to the profile, counts and locks like any other)", "CasesC14_totp.idx"),
                               ("c14_totp_mismatches", "validateUserTOTP verdict and rate-limit entry after every attempt, and every entry after every pass of the periodic cleanup, = model with the uint32 counter (simulated time)", "CasesC14_totp.idx")], "CasesC14.idx"),
         trusted=["golang.org/x/time/rate computes in float64; the model is exact and tolerates either verdict within half a nanosecond of refill around the threshold",
                  "time is simulated for validateUserTOTP by shifting the time fields of state.totpLocalRateLimit (the code reads time.Now() itself); comparisons are kept 120 ms off their boundaries",
